@@ -219,7 +219,7 @@ def c19_e2e_oracle(line, res):
     if r.get("warm") != "A/1":
         return None          # left to the comparison (not a C19 matter)
     if "early_up" in r and r["early_up"] != "0":
-        return "%s refresh queries although more than a quarter of the lifetime was left" % r["early_up"]
+        return "%s upstream queries (refreshes or misses) for repeat queries with more than a quarter of the lifetime left" % r["early_up"]
     if "early" in r and r["early"] != full:
         return "hits outside the window not all answered from the cache (%s)" % r["early"]
     if "early_infl" in r and r["early_infl"] != "0":
